@@ -119,3 +119,62 @@ Proof.
   split; [apply ex_unit_marker|]. split; [vm_compute; tauto|].
   apply conforms_irb_sound. apply ex_unit_marker.
 Qed.
+
+(** ** the hypothesis [skeleton_consistent] of C14_conforms is needed (known finding F15).
+    Witness corpus/C14/F15_marker_per_instance.json: [a::G<T> { v: (u8,) }] instantiated with
+    [T = u16] (id 2, first: the item gets the [__ignore] marker) and with [T = u8] (id 3: [T] counts
+    as used because its concrete id equals the tuple element's id).  Generation succeeds
+    ([types_equal] judges the two entries equal), the example of id 3 lacks the marker the stored
+    item declares, and it is NOT an instance. *)
+Definition f15_reg : registry :=
+  [ (0, mk_ty [] [] (TDPrimitive PU8) []);
+    (1, mk_ty [] [] (TDPrimitive PU16) []);
+    (2, mk_ty ["a"; "G"] [mk_tparam "T" (Some 1)] (TDComposite [mk_field (Some "v") 4 (Some "(u8,)") []]) []);
+    (3, mk_ty ["a"; "G"] [mk_tparam "T" (Some 0)] (TDComposite [mk_field (Some "v") 4 (Some "(u8,)") []]) []);
+    (4, mk_ty [] [] (TDTuple [0]) []) ].
+Definition f15_items : items := match generate f15_reg demo_settings (types_equal f15_reg) with Ok m => m | _ => [] end.
+
+Definition f15_ts : tokens := ["types"; ":"; ":"; "a"; ":"; ":"; "G"; "{"; "v"; ":"; "("; "7u8"; ","; ")"; ","; "}"].
+
+Ltac look :=
+  repeat match goal with
+  | L : lookup f15_reg _ = Some _ |- _ => vm_compute in L; inversion L; subst; clear L
+  end;
+  repeat match goal with
+  | D : t_def _ = _ |- _ => cbn in D; try discriminate D; inversion D; subst; clear D
+  end.
+
+Lemma f15_not_conforms : ~ conforms f15_reg demo_settings f15_items 3 f15_ts [].
+Proof.
+  unfold f15_ts. intros H. inversion H; subst; look.
+  - (* cow *) match goal with C : cow_inner _ = Some _ |- _ => vm_compute in C; discriminate C end.
+  - (* item *)
+    match goal with P : path_omit_generics _ _ _ = Ok _ |- _ => vm_compute in P; inversion P; subst; clear P end.
+    match goal with G : items_get _ _ = Some _ |- _ => vm_compute in G; inversion G; subst; clear G end.
+    match goal with S : sig_of_ir _ = ISStruct _ _ |- _ => vm_compute in S; inversion S; subst; clear S end.
+    cbn [app] in *.
+    match goal with E : _ :: _ = _ :: _ |- _ => inversion E; subst; clear E end.
+    match goal with S : conf_shape _ _ _ _ _ _ |- _ => inversion S; subst; clear S end.
+    match goal with S : conf_named _ _ _ _ _ |- _ => inversion S; subst; clear S end.
+    match goal with S : conf_named _ [] [] _ _ |- _ => inversion S; subst; clear S end.
+    match goal with S : conf_value _ _ _ _ |- _ => inversion S; subst; clear S end.
+    match goal with S : conforms _ _ _ _ _ _ |- _ => inversion S; subst; clear S; look end.
+    match goal with S : conf_tuple _ _ _ _ |- _ => inversion S; subst; clear S end.
+    match goal with S : conf_tuple _ [] _ _ |- _ => inversion S; subst; clear S end.
+    match goal with S : conforms _ _ _ _ _ _ |- _ => inversion S; subst; clear S; look end.
+    match goal with S : prim_lit _ _ _ |- _ => cbn in S; destruct S as (n & _ & S); inversion S end.
+  - match goal with E : item_eligible _ _ = false |- _ => vm_compute in E; discriminate E end.
+Qed.
+
+Example f15_generates : generate f15_reg demo_settings (types_equal f15_reg) = Ok f15_items.
+Proof. vm_compute. reflexivity. Qed.
+
+Lemma conforms_needs_consistency :
+  exists (r : registry) (s : settings) (m : items) (id : N) (ws : words) (ts : tokens),
+    generate r s (types_equal r) = Ok m /\ skeleton_consistentb r s = false /\
+    example_rust r s id ws = XOk ts /\ ~ conforms r s m id ts [].
+Proof.
+  exists f15_reg, demo_settings, f15_items, 3, [7], f15_ts.
+  split; [exact f15_generates|]. split; [vm_compute; reflexivity|].
+  split; [vm_compute; reflexivity|exact f15_not_conforms].
+Qed.
